@@ -583,15 +583,29 @@ func geometryCompleteRule(c *Ctx, rule string) {
 		if fn == nil {
 			return out
 		}
-		for _, b := range fn.Blocks {
-			for _, in := range b.Instrs {
-				if v, ok := in.(ssa.Value); ok {
-					if g := FieldOf(v); g != nil && strings.HasPrefix(g.Name(), "Num") && g.Pkg() != nil && strings.HasSuffix(g.Pkg().Path(), "/mem/dram") {
-						out[g.Name()] = true
+		seen := map[*ssa.Function]bool{}
+		var scan func(g0 *ssa.Function, depth int)
+		scan = func(g0 *ssa.Function, depth int) {
+			if g0 == nil || seen[g0] || len(g0.Blocks) == 0 {
+				return
+			}
+			seen[g0] = true
+			for _, b := range g0.Blocks {
+				for _, in := range b.Instrs {
+					if v, ok := in.(ssa.Value); ok {
+						if g := FieldOf(v); g != nil && strings.HasPrefix(g.Name(), "Num") && g.Pkg() != nil && strings.HasSuffix(g.Pkg().Path(), "/mem/dram") {
+							out[g.Name()] = true
+						}
+					}
+					if call, ok := in.(ssa.CallInstruction); ok && depth > 0 {
+						if sc := call.Common().StaticCallee(); sc != nil && sc.Pkg == fn.Pkg {
+							scan(sc, depth-1)
+						}
 					}
 				}
 			}
 		}
+		scan(fn, 2)
 		return out
 	}
 	decoded, sized := dims(mapFn), dims(stFn)
